@@ -1,30 +1,46 @@
-(* C18 — a two-parameter sweep yields nx * ny setups in row-major order, first parameter fastest. *)
-From Coq Require Import Reals Lra Lia List Arith.
+(* C18 — the generated SPDCIter (try_new, into_iter, jsi_values, jsi_values_normalized; Gen/Sweep.v) over the generated Iterator2D
+   (Gen/Grid.v, via Model.Grid.collect2d and C14's collect2d_seq / steps2d_value_rc): nx * ny setups in row-major order, first
+   parameter fastest, first setter applied first; spectrum values are the kernel mapped over those setups. *)
+From Coq Require Import Reals Lra Lia List Arith String.
 From SpdVerif Require Import Base.Rx Base.PolingBase Gen.Poling Gen.Sweep Spec.SweepPaths Model.Sweep.
+From SpdVerif Require Base.GridOps Gen.Grid Model.Grid Proofs.C14_steps Proofs.C14_iter.
 Import ListNotations.
 Local Open Scope R_scope.
 
-Lemma items_length x0 x1 nx y0 y1 ny : length (sweep_items x0 x1 nx y0 y1 ny) = (nx * ny)%nat.
-Proof. unfold sweep_items, steps2d_len. now rewrite map_length, seq_length. Qed.
+Notation Rops := Base.GridOps.Rops.
+Notation grid_value := (Gen.Grid.steps2d_value Rops).
+Notation grid_seq := (Model.Grid.seq2d Rops).
 
-Lemma items_nth x0 x1 nx y0 y1 ny k d : (k < nx * ny)%nat ->
-  nth k (sweep_items x0 x1 nx y0 y1 ny) d = steps2d_value x0 x1 nx y0 y1 ny k.
+(* the grid the generated Iterator2D delivers, in delivery order (C14) *)
+Lemma items_are_grid x0 x1 nx y0 y1 ny :
+  Model.Grid.collect2d Rops x0 x1 nx y0 y1 ny = map (grid_value x0 x1 nx y0 y1 ny) (seq 0 (nx * ny)).
+Proof. rewrite Proofs.C14_iter.collect2d_seq. reflexivity. Qed.
+
+(* the axis coordinates of the generated Steps2D::value are the property's evenly spaced values *)
+Lemma xcoord_axis a b n i : (i < n)%nat -> Proofs.C14_steps.xcoord Rops a b n i = axis_value a b n i.
 Proof.
-  intros Hk. unfold sweep_items, steps2d_len.
-  rewrite (nth_indep _ d (steps2d_value x0 x1 nx y0 y1 ny 0)) by (now rewrite map_length, seq_length).
-  rewrite map_nth, seq_nth by exact Hk. reflexivity.
+  intros Hi.
+  unfold Proofs.C14_steps.xcoord, Gen.Grid.steps2d_value, axis_value. cbn [fst GridOps.o_add GridOps.o_sub GridOps.o_mul GridOps.o_div GridOps.o_nat GridOps.o_z Rops].
+  rewrite (Nat.mod_small i n Hi).
+  destruct (lt_dec 1 n) as [H | H].
+  - apply Nat.ltb_lt in H. rewrite H. reflexivity.
+  - apply Nat.ltb_nlt in H. rewrite H. reflexivity.
 Qed.
 
-(* linear index j * nx + i  <->  (column i of the first parameter, row j of the second) *)
-Lemma value_row_major x0 x1 nx y0 y1 ny i j : (i < nx)%nat ->
-  steps2d_value x0 x1 nx y0 y1 ny (j * nx + i) = (axis_value x0 x1 nx i, axis_value y0 y1 ny j).
+Lemma ycoord_axis nx a b n j : Proofs.C14_steps.ycoord Rops nx a b n j = axis_value a b n j.
 Proof.
-  intros Hi. unfold steps2d_value, axis_value. cbv zeta.
-  assert (Hm : ((j * nx + i) mod nx = i)%nat).
-  { rewrite Nat.add_comm, Nat.mod_add by lia. apply Nat.mod_small. exact Hi. }
-  assert (Hd : ((j * nx + i) / nx = j)%nat).
-  { rewrite Nat.add_comm, Nat.div_add by lia. rewrite Nat.div_small by exact Hi. reflexivity. }
-  rewrite Hm, Hd. reflexivity.
+  unfold Proofs.C14_steps.ycoord, Gen.Grid.steps2d_value, axis_value. cbn [snd GridOps.o_add GridOps.o_sub GridOps.o_mul GridOps.o_div GridOps.o_nat GridOps.o_z Rops].
+  rewrite Nat.div_1_r.
+  destruct (lt_dec 1 n) as [H | H].
+  - apply Nat.ltb_lt in H. rewrite H. reflexivity.
+  - apply Nat.ltb_nlt in H. rewrite H. reflexivity.
+Qed.
+
+(* linear index j * nx + i  <->  (value i of the first axis, value j of the second) *)
+Lemma value_row_major x0 x1 nx y0 y1 ny i j : (i < nx)%nat ->
+  grid_value x0 x1 nx y0 y1 ny (j * nx + i) = (axis_value x0 x1 nx i, axis_value y0 y1 ny j).
+Proof.
+  intros Hi. rewrite (Proofs.C14_steps.steps2d_value_rc Rops) by exact Hi. now rewrite xcoord_axis, ycoord_axis by exact Hi.
 Qed.
 
 Lemma index_decompose nx ny k : (k < nx * ny)%nat ->
@@ -48,40 +64,107 @@ Qed.
 Lemma axis_single a b i : axis_value a b 1 i = a.
 Proof. unfold axis_value. destruct (lt_dec 1 1); [lia|]. cbv zeta. ring. Qed.
 
-(* evenly spaced: consecutive values differ by (b - a) / (n - 1) *)
 Lemma axis_step a b n i : (1 < n)%nat -> axis_value a b n (S i) - axis_value a b n i = (b - a) / INR (n - 1).
 Proof.
   intros Hn. unfold axis_value. destruct (lt_dec 1 n); [|contradiction]. cbv zeta.
   assert (0 < INR (n - 1)) by (apply lt_0_INR; lia). rewrite S_INR. field. lra.
 Qed.
 
+(* ---- SPDCIter::try_new ---- *)
+Section TryNew.
+Variable snell_internal : beam -> R -> crystal_setup -> R.
+Variable compute_sign : beam -> beam -> crystal_setup -> sign.
+Notation getter := (get_setter snell_internal compute_sign).
+
+(* accepted iff both paths are known; the first path's setter is the FIRST component, the base is stored unchanged *)
+Lemma try_new_spec spdc0 p1 p2 :
+  spdc_iter_try_new snell_internal compute_sign spdc0 p1 p2 =
+  match getter p1, getter p2 with
+  | Some s1, Some s2 => Some (spdc0, (s1, s2))
+  | _, _ => None
+  end.
+Proof. unfold spdc_iter_try_new. destruct (getter p1); destruct (getter p2); reflexivity. Qed.
+End TryNew.
+
+(* ---- SPDCIter::into_iter ---- *)
 Section Sweep.
 Variable base : spdc.
 Variables setter1 setter2 : spdc -> R -> spdc.
 
-Lemma setups_length items : length (sweep_setups base setter1 setter2 items) = length items.
-Proof. unfold sweep_setups. apply map_length. Qed.
+Lemma setups_are x0 x1 nx y0 y1 ny :
+  spdc_iter_into_iter base setter1 setter2 x0 x1 nx y0 y1 ny =
+  map (fun k => let v := grid_value x0 x1 nx y0 y1 ny k in setter2 (setter1 base (fst v)) (snd v)) (seq 0 (nx * ny)).
+Proof. unfold spdc_iter_into_iter. rewrite items_are_grid, map_map. reflexivity. Qed.
 
+Lemma setups_length x0 x1 nx y0 y1 ny :
+  List.length (spdc_iter_into_iter base setter1 setter2 x0 x1 nx y0 y1 ny) = (nx * ny)%nat.
+Proof. rewrite setups_are, map_length, seq_length. reflexivity. Qed.
+
+(* setup number j * nx + i: the FIRST setter got value i of the first axis and was applied FIRST, then the second setter *)
 Lemma setups_nth x0 x1 nx y0 y1 ny i j d : (i < nx)%nat -> (j < ny)%nat ->
-  nth (j * nx + i) (sweep_setups base setter1 setter2 (sweep_items x0 x1 nx y0 y1 ny)) d =
+  nth (j * nx + i) (spdc_iter_into_iter base setter1 setter2 x0 x1 nx y0 y1 ny) d =
   setter2 (setter1 base (axis_value x0 x1 nx i)) (axis_value y0 y1 ny j).
 Proof.
   intros Hi Hj.
   assert (Hk : (j * nx + i < nx * ny)%nat) by nia.
-  unfold sweep_setups.
-  set (f := fun v : R * R => setter2 (setter1 base (fst v)) (snd v)).
-  rewrite (nth_indep _ d (f (0, 0))) by (now rewrite map_length, items_length).
-  rewrite map_nth, (items_nth _ _ _ _ _ _ _ (0, 0) Hk), value_row_major by exact Hi.
-  reflexivity.
+  rewrite setups_are.
+  set (f := fun k => let v := grid_value x0 x1 nx y0 y1 ny k in setter2 (setter1 base (fst v)) (snd v)).
+  rewrite (nth_indep _ d (f 0%nat)) by (now rewrite map_length, seq_length).
+  rewrite map_nth, seq_nth by exact Hk. unfold f. cbv zeta. cbn [plus].
+  rewrite value_row_major by exact Hi. reflexivity.
 Qed.
 
-Lemma values_nth {A} (jsi : spdc -> A) setups k d d' : (k < length setups)%nat ->
-  nth k (sweep_values jsi setups) d' = jsi (nth k setups d).
+(* ---- jsi_values / jsi_values_normalized ---- *)
+Variable jsa_norm_sqr : R -> R -> spdc -> R.
+Variable jsi_normalization : R -> R -> spdc -> R.
+Variable try_as_optimum : spdc -> option spdc.
+
+(* the raw spectrum value of ONE setup at its own centre frequencies (the expression inside the sweep) *)
+Definition centre_value (s : spdc) : R :=
+  let j := jsa_norm_sqr (b_frequency (s_signal s)) (b_frequency (s_idler s)) s in
+  if Req_EM_T j 0 then 0 else j * jsi_normalization (b_frequency (s_signal s)) (b_frequency (s_idler s)) s.
+
+Lemma values_are x0 x1 nx y0 y1 ny :
+  spdc_iter_jsi_values jsa_norm_sqr jsi_normalization base setter1 setter2 x0 x1 nx y0 y1 ny =
+  map centre_value (spdc_iter_into_iter base setter1 setter2 x0 x1 nx y0 y1 ny).
 Proof.
-  intros Hk. unfold sweep_values.
-  rewrite (nth_indep _ d' (jsi d)) by (now rewrite map_length). apply map_nth.
+  unfold spdc_iter_jsi_values. apply map_ext. intros s. unfold centre_value. cbv zeta.
+  destruct (Req_EM_T _ 0); [reflexivity|]. unfold Rdiv. rewrite Rinv_1, Rmult_1_r. reflexivity.
 Qed.
 
-Lemma values_length {A} (jsi : spdc -> A) setups : length (sweep_values jsi setups) = length setups.
-Proof. apply map_length. Qed.
+Lemma values_length x0 x1 nx y0 y1 ny :
+  List.length (spdc_iter_jsi_values jsa_norm_sqr jsi_normalization base setter1 setter2 x0 x1 nx y0 y1 ny) = (nx * ny)%nat.
+Proof. rewrite values_are, map_length. apply setups_length. Qed.
+
+(* swept value number j * nx + i = the value of the individually constructed setup *)
+Lemma values_nth x0 x1 nx y0 y1 ny i j d : (i < nx)%nat -> (j < ny)%nat ->
+  nth (j * nx + i) (spdc_iter_jsi_values jsa_norm_sqr jsi_normalization base setter1 setter2 x0 x1 nx y0 y1 ny) d =
+  centre_value (setter2 (setter1 base (axis_value x0 x1 nx i)) (axis_value y0 y1 ny j)).
+Proof.
+  intros Hi Hj. rewrite values_are.
+  assert (Hk : (j * nx + i < nx * ny)%nat) by nia.
+  rewrite (nth_indep _ d (centre_value base)) by (now rewrite map_length, setups_length).
+  rewrite map_nth, (setups_nth _ _ _ _ _ _ i j base Hi Hj). reflexivity.
+Qed.
+
+(* normalised sweep: defined iff the base can be optimised; then every value is the raw value divided by the reference taken at the
+   centre of the OPTIMISED BASE (guard: that reference is not zero) *)
+Lemma normalized_none x0 x1 nx y0 y1 ny : try_as_optimum base = None ->
+  spdc_iter_jsi_values_normalized jsa_norm_sqr jsi_normalization try_as_optimum base setter1 setter2 x0 x1 nx y0 y1 ny = None.
+Proof. intros H. unfold spdc_iter_jsi_values_normalized. now rewrite H. Qed.
+
+Definition reference (opt : spdc) : R :=
+  jsa_norm_sqr (b_frequency (s_signal opt)) (b_frequency (s_idler opt)) opt *
+  jsi_normalization (b_frequency (s_signal opt)) (b_frequency (s_idler opt)) opt.
+
+Lemma normalized_some x0 x1 nx y0 y1 ny opt : try_as_optimum base = Some opt -> reference opt <> 0 ->
+  spdc_iter_jsi_values_normalized jsa_norm_sqr jsi_normalization try_as_optimum base setter1 setter2 x0 x1 nx y0 y1 ny =
+  Some (map (fun v => v / reference opt)
+          (spdc_iter_jsi_values jsa_norm_sqr jsi_normalization base setter1 setter2 x0 x1 nx y0 y1 ny)).
+Proof.
+  intros H Hr. unfold spdc_iter_jsi_values_normalized. rewrite H. f_equal.
+  rewrite values_are, map_map. apply map_ext. intros s. unfold centre_value, reference in *. cbv zeta.
+  destruct (Req_EM_T _ 0); [unfold Rdiv; ring|]. field.
+  split; intros E; apply Hr; rewrite E; ring.
+Qed.
 End Sweep.
